@@ -10,13 +10,13 @@ SEARCH = ['ST_string_find__c_case_sensitivity_t_k', 'ST_string_find__sz_c_case_s
           'ST_string_op_eq__rstring_k', 'ST_string_op_ne__rstring_k', 'ST_string_op_lt',
           'ST_string_compare__pc_case_sensitivity_t_k', 'ST_string_compare_i__pc_k', 'ST_string_compare_n__pc_sz_case_sensitivity_t_k', 'ST_string_compare_ni__pc_sz_k', 'ST_string_op_eq__pc_k', 'ST_string_op_ne__pc_k']
 unit('string', functions=SEARCH, stubs=LEAF_STUBS, spec=None, harness='harness/string.c', include=INC)
-job('string', 'str.find_char', 'h_str_find_char', ['C07', 'C04'], expect=[r'ST_string_find_char\.postcondition\.[1-4]'])
+job('string', 'str.find_char', 'h_str_find_char', ['C07', 'C04', 'C20'], expect=[r'ST_string_find_char\.postcondition\.[1-4]'])
 job('string', 'str.find_cstr', 'h_str_find_cstr', ['C07'], expect=[r'ST_string_find_needle\.postcondition\.[123]'])
 job('string', 'str.find_ptrlen', 'h_str_find_ptrlen', ['C07'], expect=[r'ST_string_find_needle\.postcondition\.[123]', r'ST_string_contains\.postcondition'])
 job('string', 'str.find_string', 'h_str_find_string', ['C07'], expect=[r'ST_string_find_needle\.postcondition\.[123]'])
 job('string', 'str.starts_ends_string', 'h_str_starts_ends_string', ['C07'], defines=['TR_NO_FACTS'], expect=[r'ST_string_starts_with\.postcondition\.2', r'ST_string_ends_with\.postcondition\.2'])
 job('string', 'str.starts_ends_cstr', 'h_str_starts_ends_cstr', ['C07'], defines=['TR_NO_FACTS'], expect=[r'ST_string_starts_with_cstr\.postcondition\.2', r'ST_string_ends_with_cstr\.postcondition\.2'])
-job('string', 'str.compare_string', 'h_str_compare_string', ['C06', 'C04'], defines=['TR_NO_FACTS'], expect=[r'ST_string_compare\.postcondition\.[123]', r'ST_string_operators\.postcondition\.[123]'])
+job('string', 'str.compare_string', 'h_str_compare_string', ['C06', 'C04', 'C20'], defines=['TR_NO_FACTS'], expect=[r'ST_string_compare\.postcondition\.[123]', r'ST_string_operators\.postcondition\.[123]'])
 job('string', 'str.compare_cstr', 'h_str_compare_cstr', ['C06'], defines=['TR_NO_FACTS'], expect=[r'ST_string_compare_cstr\.postcondition\.[12]'])
 
 # ---- C08: slicing
@@ -25,13 +25,13 @@ SLICE = ['ST_string_substr', 'ST_string_left', 'ST_string_right', 'ST_string_tri
 unit('string_slice', functions=SLICE, stubs=LEAF_STUBS + ['ST_string__find_last', 'ST_string_find_last__sz_c_case_sensitivity_t_k'], spec='contracts/string_slice.spec',
      harness='harness/string_slice.c', include=INC)
 job('string_slice', 'str.substr', 'h_str_substr', ['C08', 'C04'], expect=[r'slice\.postcondition\.[1-6]', r'ST_string_substr\.postcondition\.7'])
-job('string_slice', 'str.left_right', 'h_str_left_right', ['C08'], expect=[r'slice\.postcondition\.[1-6]'])
+job('string_slice', 'str.left_right', 'h_str_left_right', ['C08', 'C04'], expect=[r'slice\.postcondition\.[1-6]'])
 for sel, nm in enumerate(['trim_left', 'trim_right', 'trim']):
-    job('string_slice', 'str.' + nm, 'h_str_trim', ['C08'], defines=['TRIM_SEL=%d' % sel], timeout=900,
+    job('string_slice', 'str.' + nm, 'h_str_trim', ['C08', 'C04'], defines=['TRIM_SEL=%d' % sel], timeout=900,
         expect=[r'slice\.postcondition\.[1-6]', r'ST_string_trim\.postcondition\.(8|9|10|11)', r'ST_string_%s\.loop0\.invariant_step' % nm])
 for w, wn in enumerate(['before_first', 'after_first', 'before_last', 'after_last']):
     for k, kn in enumerate(['char', 'cstr', 'string']):
-        job('string_slice', 'str.%s.%s' % (wn, kn), 'h_str_before_after', ['C08'], defines=['BA_WHICH=%d' % w, 'BA_SEPKIND=%d' % k], timeout=900, expect=[r'slice\.postcondition\.[1-6]'])
+        job('string_slice', 'str.%s.%s' % (wn, kn), 'h_str_before_after', ['C08', 'C04'] if kn == 'string' else ['C08'], defines=['BA_WHICH=%d' % w, 'BA_SEPKIND=%d' % k], timeout=900, expect=[r'slice\.postcondition\.[1-6]'])
 # ---- C07 (and C08 before_last/after_last): find_last
 unit('string_findlast', functions=['ST_string__find_last', 'ST_string_find_last__sz_c_case_sensitivity_t_k'], stubs=LEAF_STUBS, spec='contracts/string_findlast.spec', harness='harness/string_findlast.c', include=INC)
 job('string_findlast', 'str.find_last_needle', 'h_str_find_last_needle', ['C07', 'C08'], timeout=1500, solver='cadical', expect=[r'ST_string_find_last\.postcondition\.[1-4]', r'ST_string__find_last\.loop0\.invariant_step', r'ST_string__find_last\.loop0\.decreases'])
@@ -47,6 +47,14 @@ SPLIT = ['ST::string::split|(const ST::string &, size_t', 'ST::string::split|(co
 unit('string_split', functions=SPLIT, stubs=LEAF_STUBS + ['ST_string_ctor__pc_sz_utf_validation_t', 'stp_validate_utf8'], spec='contracts/string_split.spec', harness='harness/string_split.c', include=INC + ['spec/split_ghost.h'])
 job('string_split', 'str.split_string', 'h_str_split_string', ['C09', 'C04'], timeout=900, solver='cadical', expect=[r'ST_string_split\.postcondition\.[1-7]', r'ST_string_split\.step\.[123]', r'loop0\.decreases'])
 job('string_split', 'str.split_cstr', 'h_str_split_cstr', ['C09'], timeout=900, solver='cadical', expect=[r'ST_string_split\.postcondition\.[1-7]', r'ST_string_split\.step\.[123]', r'loop1\.decreases'])
-job('string_split', 'str.split_char', 'h_str_split_char', ['C09'], timeout=900, solver='cadical', expect=[r'ST_string_split\.postcondition\.[1-7]', r'ST_string_split\.step\.[123]', r'loop0\.decreases'])
+job('string_split', 'str.split_char', 'h_str_split_char', ['C09', 'C04'], timeout=900, solver='cadical', expect=[r'ST_string_split\.postcondition\.[1-7]', r'ST_string_split\.step\.[123]', r'loop0\.decreases'])
 job('string_split', 'str.tokenize', 'h_str_tokenize', ['C09', 'C04'], timeout=900, solver='cadical', expect=[r'ST_string_tokenize\.postcondition\.[1267]', r'ST_string_tokenize\.step\.[1-6]', r'loop[012]\.decreases'])
-job('string_split', 'str.replace', 'h_str_replace', ['C09', 'C04'], timeout=1500, solver='cadical', expect=[r'ST_string_replace\.postcondition\.([1-9]|10)', r'ST_string_replace\.count\.[123]', r'ST_string_replace\.copy\.[12]', r'loop[01]\.decreases'])
+job('string_split', 'str.replace', 'h_str_replace', ['C09', 'C04'], tier='thorough', timeout=3000, solver='cadical', defines=['RP_NO_CONTENT=1'], expect=[r'ST_string_replace\.postcondition\.([1-9]|10)', r'ST_string_replace\.count\.[123]', r'ST_string_replace\.copy\.[12]', r'loop[01]\.decreases'])
+unit('string_replace_bounded', functions=[SPLIT[4]], stubs=['stp_validate_utf8'], spec=None, harness='harness/string_split_bounded.c', include=INC)
+job('string_replace_bounded', 'bounded.str.replace', 'hb_str_replace', ['C09'], kind='bounded', bound='text <= 4 bytes, pattern <= 2, replacement <= 2, both case modes', defines=['TR_CONCRETE', 'RB_S=4', 'RB_F=2', 'RB_T=2'], unwind=10, solver='cadical', timeout=1200, object_bits=8)
+PROPS['C09'] = dict(level='proof', explanation='split (char, const char *, ST::string separators) and tokenize proved for texts and separators of unbounded length: every step appends exactly the text between the resume point and the first occurrence the search contract reports, resumes right after it, makes at most max cuts, the last piece runs to the end (so joining reproduces the text), an empty separator leaves the text whole, tokens are exactly the maximal non-empty runs of non-delimiter bytes, every loop terminates with a decreasing measure; the searches themselves are the C07 leaf contracts (first occurrence, ASCII-only folding), re-run under this property.  replace(): the whole function is checked BOUNDED (text <= 4, pattern <= 2, replacement <= 2 bytes) against a reference implementation; its unbounded loop contracts (counting scan == copying scan via the ghost function REM, segment-wise content) are kept in contracts/string_split.spec and run in the thorough tier (reported as undecided there if the solver does not finish)',
+    trusted_base=['std::vector<ST::string> push/ctor/dtor contract (harness/string_split.c: appends one element, strong guarantee)', 'char_traits<char>::find/length/copy contracts (prelude.h)', 'search oracle NXT(off): the needle search is a function of the start offset on an unmodified text; its contract (NULL or an occurrence inside the range) is the one proved for find_cs/find_ci in the C07 leaf jobs', 'string(const char*, size_t, utf_validation_t) contract stub in split(const char*) (copy, or unicode_error under check_validity)'],
+    assumptions=['per-step facts are machine-checked; "the pieces, joined by the separator, reproduce the text" and "tokens are exactly the maximal runs" follow by induction over steps (stated, not machine-checked)', 'overload agreement (char / const char * / ST::string) holds because each form is proved against the same step specification'])
+unit('string_split_bounded', functions=SPLIT[:4], stubs=['stp_validate_utf8'], spec=None, harness='harness/string_split_bounded.c', include=INC)
+job('string_split_bounded', 'bounded.str.split', 'hb_str_split', ['C09'], kind='bounded', bound='text <= 4 bytes, separator <= 2 bytes, all three separator forms, both case modes, any max', defines=['TR_CONCRETE', 'RB_SPLIT', 'RB_S=4', 'RB_F=2', 'RB_T=2'], unwind=8, solver='cadical', timeout=1200, object_bits=8)
+job('string_split_bounded', 'bounded.str.tokenize', 'hb_str_tokenize', ['C09'], kind='bounded', bound='text <= 4 bytes, delimiter set <= 2 bytes', defines=['TR_CONCRETE', 'RB_SPLIT', 'RB_S=4', 'RB_F=2', 'RB_T=2'], unwind=8, solver='cadical', timeout=1200, object_bits=8)
